@@ -318,6 +318,13 @@ def main():
                 cmd += ["--step-cap", str(j["step_cap"])]
             for k, v in j.get("params", {}).items():
                 cmd += ["--param", "%s=%d" % (k, v)]
+            # every second worker of a sequentially consistent job runs with address reuse in the arena allocator (freed
+            # blocks are handed out again, most recently freed first) so that ABA situations are reachable; the others
+            # keep the quarantine (no address is ever reused), which detects every use-after-free
+            if w % 2 == 1 and not j.get("weak") and "reuse" not in j.get("params", {}) and not j.get("no_reuse"):
+                cmd += ["--param", "reuse=1"]
+            for kv in os.environ.get("VERIF_EXTRA_PARAMS", "").split():  # experiments only, e.g. "reuse=1"
+                cmd += ["--param", kv]
             for f in known.get("open", []):
                 if prop in prop_of(f) and f.get("match", {}).get("harness", "") in ("", j["harness"]) and (not f["match"].get("weak_only") or j.get("weak")):
                     for kind in f["match"].get("kinds", []):
